@@ -1,0 +1,130 @@
+//go:build verif
+// +build verif
+
+package leanhelix
+
+// Verification hooks (build tag "verif"). Add-only: nothing here is compiled without the tag.
+//
+// VerifNode gives a test harness synchronous, single-threaded entry points into the real
+// WorkerLoop and mirrors, step by step, what the bodies of MainLoop.run and WorkerLoop.Run do
+// for one event, so that a deterministic scheduler can drive several real nodes without goroutines.
+
+import (
+	"github.com/orbs-network/lean-helix-go/services/interfaces"
+	L "github.com/orbs-network/lean-helix-go/services/logger"
+	"github.com/orbs-network/lean-helix-go/services/termincommittee"
+	"github.com/orbs-network/lean-helix-go/spec/types/go/primitives"
+	"github.com/orbs-network/lean-helix-go/state"
+)
+
+type VerifNode struct {
+	config               *interfaces.Config
+	state                *state.State
+	logger               L.LHLogger
+	electionScheduler    interfaces.ElectionScheduler
+	worker               *WorkerLoop
+	maxBlockHeightBySync *primitives.BlockHeight
+}
+
+// NewVerifNode builds what NewLeanHelix + the first lines of MainLoop.Run build, without starting goroutines.
+func NewVerifNode(config *interfaces.Config, onCommitCallback interfaces.OnCommitCallback, onNewConsensusRoundCallback interfaces.OnNewConsensusRoundCallback) *VerifNode {
+	if config.OverrideElectionTrigger == nil {
+		panic("VerifNode requires config.OverrideElectionTrigger")
+	}
+	s := state.NewState()
+	logger := L.NewLhLogger(config, s)
+	return &VerifNode{
+		config:            config,
+		state:             s,
+		logger:            logger,
+		electionScheduler: config.OverrideElectionTrigger,
+		worker:            NewWorkerLoop(s, config, logger, config.OverrideElectionTrigger, onCommitCallback, onNewConsensusRoundCallback),
+	}
+}
+
+func (n *VerifNode) State() *state.State { return n.state }
+func (n *VerifNode) Worker() *WorkerLoop { return n.worker }
+
+// Gc mirrors the first statement of every MainLoop.run iteration.
+func (n *VerifNode) Gc() { n.state.GcOldContexts() }
+
+// MainMessage mirrors the messagesChannel branch of MainLoop.run (parse + log; forwarding is up to the caller).
+func (n *VerifNode) MainMessage(message *interfaces.ConsensusRawMessage) {
+	parsedMessage := interfaces.ToConsensusMessage(message)
+	n.logger.Debug("LHFLOW LHMSG MAINLOOP RECEIVED %v from %v for H=%d V=%d", parsedMessage.MessageType(), parsedMessage.SenderMemberId(), parsedMessage.BlockHeight(), parsedMessage.View())
+}
+
+// WorkerMessage mirrors the MessagesChannel branch of WorkerLoop.Run.
+func (n *VerifNode) WorkerMessage(msg *interfaces.ConsensusRawMessage) {
+	lh := n.worker
+	parsedMessage := interfaces.ToConsensusMessage(msg)
+	lh.logger.Debug("LHFLOW LHMSG WORKERLOOP RECEIVED %v from %v for H=%d V=%d", parsedMessage.MessageType(), parsedMessage.SenderMemberId(), parsedMessage.BlockHeight(), parsedMessage.View())
+	lh.filter.HandleConsensusRawMessage(msg)
+}
+
+// MainElection mirrors the ElectionChannel branch of MainLoop.run; true means the trigger was forwarded to the worker.
+func (n *VerifNode) MainElection(trigger *interfaces.ElectionTrigger) bool {
+	targetHv := state.NewHeightView(trigger.Hv.Height(), trigger.Hv.View()+1)
+	n.state.Contexts.CancelOlderThan(targetHv)
+	_, err := n.state.Contexts.For(targetHv)
+	if err != nil {
+		return false
+	}
+	return true
+}
+
+// WorkerElection mirrors the electionChannel branch of WorkerLoop.Run.
+func (n *VerifNode) WorkerElection(trigger *interfaces.ElectionTrigger) {
+	lh := n.worker
+	if trigger == nil {
+		return
+	}
+	current := lh.state.HeightView()
+	if current.Height() != trigger.Hv.Height() || current.View() != trigger.Hv.View() {
+		return
+	}
+	trigger.MoveToNextLeader()
+}
+
+// MainUpdateState mirrors the mainUpdateStateChannel branch of MainLoop.run; true means the sync was forwarded to the worker.
+func (n *VerifNode) MainUpdateState(block interfaces.Block, prevBlockProofBytes []byte) bool {
+	var receivedBlockHeight primitives.BlockHeight
+	if block == nil {
+		receivedBlockHeight = 0
+	} else {
+		receivedBlockHeight = block.Height()
+	}
+	if n.maxBlockHeightBySync != nil && *n.maxBlockHeightBySync >= receivedBlockHeight {
+		return false
+	}
+	hv := state.NewHeightView(receivedBlockHeight+1, 0)
+	n.state.Contexts.CancelOlderThan(hv)
+	_, err := n.state.Contexts.For(hv)
+	if err != nil {
+		return false
+	}
+	if n.maxBlockHeightBySync == nil {
+		n.maxBlockHeightBySync = new(primitives.BlockHeight)
+	}
+	*n.maxBlockHeightBySync = receivedBlockHeight
+	return true
+}
+
+// WorkerUpdateState mirrors the workerUpdateStateChannel branch of WorkerLoop.Run.
+func (n *VerifNode) WorkerUpdateState(block interfaces.Block, prevBlockProofBytes []byte) {
+	n.worker.handleUpdateState(&blockWithProof{block: block, prevBlockProofBytes: prevBlockProofBytes})
+}
+
+// Shutdown mirrors what the two loops do when the run context is cancelled.
+func (n *VerifNode) Shutdown() {
+	n.worker.cleanupCurrentTerm()
+	n.worker.interrupt()
+}
+
+// VerifTerm returns the current in-committee term (nil before the first round or when out of committee).
+func (n *VerifNode) VerifTerm() *termincommittee.TermInCommittee {
+	if n.worker.leanHelixTerm == nil {
+		return nil
+	}
+	return n.worker.leanHelixTerm.VerifTerm()
+}
